@@ -18,7 +18,7 @@ var (
 	tapeOn  bool
 )
 
-var tapeOps = map[string]bool{"exp": true, "ln": true, "log10": true, "pow": true, "sqrt": true}
+var tapeOps = map[string]bool{"exp": true, "ln": true, "log10": true, "pow": true, "sqrt": true, "cbrt": true}
 
 func init() {
 	apd.VerifTape = func(kind string, n int64, d *apd.Decimal) {
@@ -37,6 +37,9 @@ func init() {
 		case "sqrt.iter":
 			// observation point, not a decision: the iterate the precision-doubling loop of Sqrt ended with
 			tapeBuf = append(tapeBuf, "a"+showDec(d))
+		case "cbrt.iter":
+			// observation point: the iterate the Newton loop of Cbrt ended with (loop.done reported convergence)
+			tapeBuf = append(tapeBuf, "b"+showDec(d))
 		}
 	}
 }
